@@ -19,7 +19,8 @@ def run_govc(prop, tier, here, repo, env, binp, scratch, extra_props=None):
     out = os.path.join(scratch, "govc.json")
     timeout = "10" if tier == "quick" else "60"
     props = [prop] + (extra_props or [])
-    cmd = [binp, "-repo", repo, "-props", ",".join(props), "-timeout", timeout, "-out", out, "-scratch", os.path.join(scratch, "smt")]
+    cmd = [binp, "-repo", repo, "-props", ",".join(props), "-timeout", timeout, "-out", out, "-scratch", os.path.join(scratch, "smt"),
+           "-replaydir", os.path.join(scratch, "replaytests")]
     t0 = time.time()
     r = subprocess.run(cmd, env=env, capture_output=True, text=True)
     res = load_json(out, {"error": "govc produced no output: " + (r.stderr or r.stdout)[-2000:]})
@@ -36,6 +37,12 @@ def run(prop, tier, seed, replay, here, repo, env, ensure_built):
         return 2
     binp = ensure_built()
     scratch = tempfile.mkdtemp(prefix="verif.", dir=os.environ.get("VERIF_SCRATCH", "/var/tmp"))
+    if replay:
+        import replay_go
+        try:
+            return replay_go.rerun(replay, here, repo, env, scratch)
+        finally:
+            shutil.rmtree(scratch, ignore_errors=True)
     try:
         return _run(prop, tier, seed, replay, here, repo, env, binp, scratch, cfg, t0)
     finally:
@@ -71,7 +78,8 @@ def _run(prop, tier, seed, replay, here, repo, env, binp, scratch, cfg, t0):
                 obls.append({"id": oid, "status": o["status"], "engine": "govc", "solvers": o.get("solvers") or [],
                              "time": o.get("time_s", 0), "model": o.get("model", ""), "pos": o.get("pos", ""),
                              "kind": o["kind"], "instances": o["instances"], "vc_bytes": o.get("vc_bytes", 0),
-                             "weak": o.get("candidate_model_from_instantiation", False), "func": key})
+                             "weak": o.get("candidate_model_from_instantiation", False), "func": key,
+                             "replay_test": o.get("replay_test", ""), "replay_note": o.get("replay_note", "")})
     for eng in cfg["engines"]:
         if eng == "govc":
             continue
